@@ -307,13 +307,14 @@ theorem hash_is_not_a_function_of_eq :
     `can_be_empty_element` and `hidden`. Generated from the running source with `inspect`/`ast`. -/
 theorem copy_self_source :
     BS.Gen.Copy.copySelfArgs =
-      [(ofS "parser", ofS "None"), (ofS "builder", ofS "None"), (ofS "name", ofS "self.name"),
-       (ofS "namespace", ofS "self.namespace"), (ofS "prefix", ofS "self.prefix"), (ofS "attrs", ofS "self.attrs"),
-       (ofS "is_xml", ofS "self._is_xml"), (ofS "sourceline", ofS "self.sourceline"), (ofS "sourcepos", ofS "self.sourcepos"),
+      [(ofS "attrs", ofS "self.attrs"), (ofS "builder", ofS "None"),
        (ofS "can_be_empty_element", ofS "self.can_be_empty_element"),
        (ofS "cdata_list_attributes", ofS "self.cdata_list_attributes"),
+       (ofS "interesting_string_types", ofS "self.interesting_string_types"), (ofS "is_xml", ofS "self._is_xml"),
+       (ofS "name", ofS "self.name"), (ofS "namespace", ofS "self.namespace"), (ofS "namespaces", ofS "self._namespaces"),
+       (ofS "parser", ofS "None"), (ofS "prefix", ofS "self.prefix"),
        (ofS "preserve_whitespace_tags", ofS "self.preserve_whitespace_tags"),
-       (ofS "interesting_string_types", ofS "self.interesting_string_types"), (ofS "namespaces", ofS "self._namespaces")] ∧
+       (ofS "sourceline", ofS "self.sourceline"), (ofS "sourcepos", ofS "self.sourcepos")] ∧
     BS.Gen.Copy.copySelfSetattrs = [ofS "can_be_empty_element", ofS "hidden"] := by decide +kernel
 
 /-- no parameter of `Tag.__init__` is forgotten by `copy_self` ("Any new arguments here need to be mirrored in
